@@ -6,6 +6,7 @@ import (
 	"math/rand"
 	"os"
 	"path/filepath"
+	"regexp"
 	"strconv"
 	"strings"
 
@@ -137,6 +138,25 @@ func init() {
 			return Result{Status: "harness-error", Note: err.Error()}
 		}
 		return okS(cmd.VerifReadCurrentRegex(p, string(a[1]), uint8(len(a[2]))))
+	}
+	// what compareRegex prints for a rule id and two expressions (text mode): the whole display
+	implOps["compare.view"] = func(a [][]byte) Result {
+		_, root := workerCtx()
+		tmp, err := os.CreateTemp(root, "view")
+		if err != nil {
+			return Result{Status: "harness-error", Note: err.Error()}
+		}
+		defer os.Remove(tmp.Name())
+		old := os.Stdout
+		os.Stdout = tmp
+		cerr := cmd.VerifCompareRegex(string(a[0]), string(a[2]), string(a[1]))
+		os.Stdout = old
+		tmp.Close()
+		if cerr == nil {
+			return diag("equal")
+		}
+		b, _ := os.ReadFile(tmp.Name())
+		return ok(b)
 	}
 	implOps["semver.valid"] = func(a [][]byte) Result {
 		if err := cmd.VerifValidateSemver(string(a[0])); err != nil {
@@ -509,6 +529,9 @@ func genUpdateCases(r *rand.Rand, tier string, prop string) []Case {
 		}
 		cases = append(cases, c)
 	}
+	if prop == "C12" {
+		cases = append(cases, compareViewCases(r, n/3)...)
+	}
 	// malformed targets: model and code must agree on the failure class
 	for i := 0; i < n/5; i++ {
 		rf := genRulesFile(r)
@@ -522,13 +545,145 @@ func genUpdateCases(r *rand.Rand, tier string, prop string) []Case {
 	return cases
 }
 
+// compareViewCases: what compare shows for two differing expressions — lengths around the piece size of 50 and its
+// multiples, the difference in the first / a middle / the last piece, one a prefix of the other, one empty, bytes
+// above 0x7f (pieces are cut by bytes)
+func compareViewCases(r *rand.Rand, n int) []Case {
+	var cases []Case
+	alpha := []string{"a", "b", "(?:x|y)", `\x5c`, "[0-9]", "é", " ", "|", `\"`, "%", "~"}
+	blanks := true
+	mk := func(l int) string {
+		var sb strings.Builder
+		for sb.Len() < l {
+			t := pick(r, alpha)
+			if t == " " && !blanks {
+				t = "_"
+			}
+			sb.WriteString(t)
+		}
+		return sb.String()[:l]
+	}
+	for i := 0; i < n; i++ {
+		blanks = i%4 == 0
+		l := pick(r, []int{0, 1, 49, 50, 51, 99, 100, 101, 150, 10, 75, 120, 500, 1000})
+		cur := mk(l)
+		gen := cur
+		switch i % 7 {
+		case 0:
+			gen = mk(pick(r, []int{0, 1, 50, 51, 100, 149, 150, 151, 30}))
+		case 1:
+			if l > 0 {
+				at := r.Intn(l)
+				gen = cur[:at] + "#" + cur[at+1:]
+			}
+		case 2:
+			gen = cur + mk(1+r.Intn(120))
+		case 3:
+			if l > 0 {
+				gen = cur[:r.Intn(l)]
+			}
+		case 4:
+			if l > 0 {
+				at := r.Intn(l)
+				gen = cur[:at] + mk(1+r.Intn(3)) + cur[at:]
+			}
+		case 5:
+			if l > 1 {
+				gen = cur[:l-1] + "#"
+			}
+		case 6:
+			if l > 0 {
+				gen = "#" + cur[1:]
+			}
+		}
+		if gen == cur {
+			gen = cur + "x"
+		}
+		id := pick(r, []string{"942100", "932100", "9", "1234567"})
+		args := [][]byte{[]byte(id), []byte(cur), []byte(gen)}
+		cases = append(cases, Case{Kind: "compare-view", Ops: []Op{{"compare.view", args}}, Oracles: []Op{{"c12.view", args}}})
+	}
+	return cases
+}
+
+var reViewRow = regexp.MustCompile(`^(current:  {6}|generated: {5})(.*?) +(~ )?\((\d+) / (\d+)\)$`)
+
+// oracleC12View: read as a user reads it — the pieces shown for each expression, put together, are that expression;
+// a piece pair is marked `~` exactly when the two pieces differ; "first difference" is shown once, directly before the
+// first marked pair. (Pieces that end in blanks cannot be told from the padding: such expressions are skipped here, the
+// tie with the model covers them.)
+func oracleC12View(p *Pair, env *Env, a [][]byte) *Failure {
+	cur, gen := string(a[1]), string(a[2])
+	v := p.Impl(Op{"compare.view", a}, env.timeout)
+	if v.Status != "ok" || !strings.Contains(string(v.Out[0]), "Regex of "+string(a[0])+" has changed") {
+		// this is what C12 states; how the change is displayed (below) is what the theorems of C12View say about the
+		// model of the display — checked on the real output as obligations, not as the property
+		return &Failure{What: "compare does not report a change for two different expressions", Detail: fmt.Sprintf("current %q\ngenerated %q\n%s", cur, gen, v.String())}
+	}
+	text := string(v.Out[0])
+	if strings.ContainsAny(cur+gen, " \n") {
+		return nil
+	}
+	var shownCur, shownGen strings.Builder
+	marks, firstAt, line := 0, -1, 0
+	markedRows := map[string]bool{}
+	firstMarked := ""
+	for _, l := range strings.Split(text, "\n") {
+		line++
+		if l == "first difference" {
+			marks++
+			firstAt = line
+			continue
+		}
+		m := reViewRow.FindStringSubmatch(strings.TrimSuffix(l, "==========="))
+		if m == nil {
+			continue
+		}
+		if strings.HasPrefix(m[1], "current") {
+			shownCur.WriteString(m[2])
+		} else {
+			shownGen.WriteString(m[2])
+		}
+		if m[3] != "" {
+			markedRows[m[4]] = true
+			if firstMarked == "" {
+				firstMarked = m[4]
+				if firstAt < 0 || line-firstAt > 2 {
+					return &Failure{What: "obligation: view_first_difference does not hold on the real display (the first marked pair is not the framed one)", Detail: fmt.Sprintf("current %q\ngenerated %q\noutput %q", cur, gen, text)}
+				}
+			}
+		}
+	}
+	detail := fmt.Sprintf("current %q\ngenerated %q\noutput %q", cur, gen, text)
+	if shownCur.String() != cur || shownGen.String() != gen {
+		return &Failure{What: "obligation: view_shows_current / view_shows_generated do not hold on the real display (the pieces shown do not add up to the two expressions)", Detail: detail}
+	}
+	if marks != 1 {
+		return &Failure{What: "obligation: view_first_difference does not hold on the real display (`first difference` is shown " + strconv.Itoa(marks) + " times)", Detail: detail}
+	}
+	for i := 0; i*50 < len(cur) || i*50 < len(gen); i++ {
+		pc, pg := "", ""
+		if i*50 < len(cur) {
+			pc = cur[i*50 : min(len(cur), i*50+50)]
+		}
+		if i*50 < len(gen) {
+			pg = gen[i*50 : min(len(gen), i*50+50)]
+		}
+		if (pc != pg) != markedRows[strconv.Itoa(i+1)] {
+			return &Failure{What: "obligation: the marks of the real display differ from the model's (pair " + strconv.Itoa(i+1) + ")", Detail: detail}
+		}
+	}
+	return nil
+}
+
 func init() {
+	oracles["c12.view"] = oracleC12View
 	oracles["c11.strays"] = oracleC11Strays
 	rule := "rules files in CRS layout (1..6 rules, chains of length 0..3, neighbouring ids with a common prefix, negated and other operators, comments and msg actions mentioning ids, CRLF, missing final newline, trailing blanks after the continuation) x new regexes containing `$`, `\\\"`, `\"@rx `-like text, spaces, backslashes; the generator records the byte span of the addressed operand; " +
 		"non-trivial = the file has at least two @rx operands; distinct by (file, target, regex)"
 	properties["C11"] = &Property{ID: "C11", LeanMods: []string{"CrsProps.C11"}, Corr: "K7 (updateRegex, readCurrentRegex vs Crs.Update), K10 (update binary)", Rule: rule,
 		Gen: func(r *rand.Rand, tier string, env *Env) []Case { return genUpdateCases(r, tier, "C11") }}
-	properties["C12"] = &Property{ID: "C12", LeanMods: []string{"CrsProps.C12", "CrsProps.C12Cli"}, Corr: "K7, K10 (update/compare binaries: histories update→compare, update→update, edit-one-byte→compare)", Rule: rule,
+	properties["C12"] = &Property{ID: "C12", LeanMods: []string{"CrsProps.C12", "CrsProps.C12Cli", "CrsProps.C12View"}, Corr: "K7, K10 (update/compare binaries: histories update→compare, update→update, edit-one-byte→compare)", Rule: rule,
 		Gen:    func(r *rand.Rand, tier string, env *Env) []Case { return genUpdateCases(r, tier, "C12") },
 		Assume: []string{"known finding D09 (bare quote after an escaped backslash) makes the stored operand end early"}}
 }
